@@ -8,10 +8,10 @@ reg(Prop('C12', [
     Stream('c12.vliw', 2000, 100000, 'oracle', timeout=900),
     Stream('c12.arith', 5000, 500000, 'spec', exhaustive='2^k-1, 2^k, 2^k+1 for k in {0,7,8,15,16,30,31,32,33,62,63} for offsets, factored offsets x factors, alignment factors, advance accumulation'),
     # the converter models against the real converters (the converted write-side objects are compared)
-    Stream('c12.cficonv', 40000, 1500000, 'model', timeout=900),
-    Stream('c12.exprconv', 40000, 1500000, 'model', timeout=900),
-    Stream('c12.listconv', 30000, 1000000, 'model', timeout=900),
-    Stream('c12.attrconv', 40000, 1000000, 'model', timeout=900),
+    Stream('c12.cficonv', 30000, 1000000, 'model', timeout=900),
+    Stream('c12.exprconv', 30000, 1500000, 'model', timeout=900),
+    Stream('c12.listconv', 20000, 1000000, 'model', timeout=900),
+    Stream('c12.attrconv', 30000, 1000000, 'model', timeout=900),
 ], level='proof', design_ref='§5 C12',
     clauses=['cfi_offset_exact_or_error', 'cfi_factored_offset_exact_or_error', 'cfi_factors_exact_or_error', 'cfi_advance_exact_or_error',
              'cfi_insn_convert_sound', 'cfi_insn_convert_each', 'cfi_convert_write_read_sound', 'cfi_normal_form_cie', 'cfi_normal_form_fde',
